@@ -138,6 +138,20 @@ func init() {
 			}
 			c.Res.Nontrivial = true
 		}})
+	Register(&Check{Prop: "C15", Sub: "stream-through-client", Weight: 2, Real: clientReal, Stub: clientStub,
+		Req:  []string{"handshake_completed", "notification_delivered", "completeness_judged"},
+		Rule: "the C17 stream scenario (3-27 numbered Tx/TxUpdate messages with unnumbered InSync/Headers in between, streamed by the scripted service over links that fragment writes and coalesce reads like a TCP socket, with slow handlers and connection drops) through the real RemoteClient: every message the service wrote reaches the handlers once, intact and in order, however the bytes were cut up or joined on the way.",
+		Run: func(c *Ctx) {
+			c.OnlyClauses = []string{"missed", "wrong-content", "out-of-order", "foreign-id", "repeat"}
+			runC17(c)
+		}})
+	Register(&Check{Prop: "C15", Sub: "client-writes-framed", Weight: 1, Real: clientReal, Stub: clientStub,
+		Req:  []string{"connection", "valid_accept", "call_succeeded"},
+		Rule: "the C18 scenario (concurrent application calls, subscriptions and Ready around handshakes, reconnects, slow writes, thread stalls) judged for one thing: the bytes the client wrote on every connection parse as a sequence of whole messages.",
+		Run: func(c *Ctx) {
+			c.OnlyClauses = []string{"stream-corrupt"}
+			runC18(c)
+		}})
 	Register(&Check{Prop: "C15", Sub: "type-bijection", Once: true, Real: real,
 		Run: func(c *Ctx) {
 			names := map[string]uint64{}
